@@ -360,6 +360,8 @@ static Result check_grid(const J &c)
   // ---- (b) the requested lattice
   const double x_min = c.at("x_min").num(), x_max = c.at("x_max").num(), y_min = c.at("y_min").num(), y_max = c.at("y_max").num(), z_min = c.at("z_min").num(), z_max = c.at("z_max").num();
   std::vector<Node> ref;
+  std::vector<std::array<size_t, 3>> ref_ijk; // lattice indices of the reference nodes, in the order of `ref`
+  size_t wrap_i = 0;                           // annulus: the tangential index wraps after this many nodes
   size_t want_cells = 0;
   if (type == "cartesian")
     {
@@ -370,6 +372,7 @@ static Result check_grid(const J &c)
             {
               const double z = z_min + static_cast<double>(k) * (z_max - z_min) / static_cast<double>(nz);
               ref.push_back({x_min + static_cast<double>(i) * (x_max - x_min) / static_cast<double>(nx), dim == 3 ? y_min + static_cast<double>(j) * (y_max - y_min) / static_cast<double>(ny) : z, dim == 3 ? z : 0.0, z_max - z});
+              ref_ijk.push_back({{i, j, k}});
             }
     }
   else if (type == "chunk")
@@ -384,6 +387,7 @@ static Result check_grid(const J &c)
               const double rad = z_min + static_cast<double>(k) * (z_max - z_min) / static_cast<double>(nz);
               if (dim == 3) { const auto p = sph2cart(rad, lon, lat); ref.push_back({p[0], p[1], p[2], z_max - rad}); }
               else ref.push_back({rad * std::cos(lon), rad * std::sin(lon), 0.0, z_max - rad});
+              ref_ijk.push_back({{i, j, k}});
             }
     }
   else if (type == "annulus")
@@ -397,7 +401,9 @@ static Result check_grid(const J &c)
           {
             const double th = 2.0 * PI * static_cast<double>(i) / static_cast<double>(nt), rad = z_min + static_cast<double>(j) * dr;
             ref.push_back({rad * std::cos(th), rad * std::sin(th), 0.0, z_max - rad});
+            ref_ijk.push_back({{i, 0, j}});
           }
+      wrap_i = nt;
     }
   auto file_node = [&](size_t i) { return Node{v.arrays.at("Points")[3 * i], v.arrays.at("Points")[3 * i + 1], v.arrays.at("Points")[3 * i + 2], v.arrays.at("Depth")[i]}; };
   const double scale = std::max({std::fabs(x_min), std::fabs(x_max), std::fabs(z_max), type == "cartesian" ? std::fabs(y_max) : 0.0, 1.0});
@@ -415,6 +421,24 @@ static Result check_grid(const J &c)
             if (!used[j] && std::fabs(n.x - ref[j].x) <= ptol && std::fabs(n.y - ref[j].y) <= ptol && std::fabs(n.z - ref[j].z) <= ptol) { used[j] = 1; match[i] = static_cast<long>(j); break; }
           if (match[i] < 0) return Result::fail("grid-node-not-on-lattice", type + ": node " + std::to_string(i) + " (" + fmt(n.x) + "," + fmt(n.y) + "," + fmt(n.z) + ") is not a node of the requested lattice");
         }
+      // the cells cover the requested region: every cell is one cell of the lattice (its corners are the 2^dim corners of one lattice
+      // cell) and every lattice cell occurs exactly once
+      std::set<std::array<size_t, 3>> cells_seen;
+      for (size_t ci = 0; ci < ncell; ++ci)
+        {
+          std::array<size_t, 3> lo{{SIZE_MAX, SIZE_MAX, SIZE_MAX}};
+          std::vector<std::array<size_t, 3>> corners;
+          for (size_t k = 0; k < vpc; ++k) corners.push_back(ref_ijk[static_cast<size_t>(match[static_cast<size_t>(v.arrays.at("connectivity")[ci * vpc + k])])]);
+          for (auto &q : corners) for (size_t a = 0; a < 3; ++a) lo[a] = std::min(lo[a], q[a]);
+          // annulus: the cell that closes the ring joins tangential index nt-1 with 0
+          if (wrap_i) { bool has0 = false, haslast = false; for (auto &q : corners) { if (q[0] == 0) has0 = true; if (q[0] == wrap_i - 1) haslast = true; } if (has0 && haslast && wrap_i > 2) { lo[0] = wrap_i - 1; for (auto &q : corners) if (q[0] == 0) q[0] = wrap_i; } }
+          std::set<std::array<size_t, 3>> want_c, got_c(corners.begin(), corners.end());
+          for (size_t a = 0; a < 2; ++a) for (size_t b = 0; b < (dim == 3 ? 2u : 1u); ++b) for (size_t cc = 0; cc < 2; ++cc) want_c.insert({{lo[0] + a, lo[1] + b, lo[2] + cc}});
+          if (got_c != want_c)
+            return Result::fail("grid-cell-not-a-lattice-cell", type + " dim " + std::to_string(dim) + " (" + std::to_string(nx) + " x " + std::to_string(nz) + " cells): cell " + std::to_string(ci) + " does not join the corners of one lattice cell; it references lattice nodes " + [&] { std::string t; for (auto &q : corners) t += "(" + std::to_string(q[0]) + "," + std::to_string(q[1]) + "," + std::to_string(q[2]) + ") "; return t; }());
+          if (!cells_seen.insert(lo).second) return Result::fail("grid-cell-twice", type + ": lattice cell (" + std::to_string(lo[0]) + "," + std::to_string(lo[1]) + "," + std::to_string(lo[2]) + ") is written twice");
+        }
+      r.classes.push_back("every cell is one lattice cell, each once");
     }
   std::vector<int> shell_of; // sphere grids: index of the radial shell of every node
   if (type == "sphere")
@@ -609,6 +633,6 @@ int main(int argc, char **argv)
 {
   return run_main("C18", argc, argv,
   {
-    {"grid", "worlds with a cross section x grid files: cartesian / chunk (2D and 3D), annulus (2D), sphere (3D); bounds, 1..12 x 1..8 x 1..10 cells, 0..4 compositions, -j 1/2/3/7, --filtered / --by-tag. Oracle: (a) well-formed VTU (counts, array sizes, index ranges, offsets, cell types, no degenerate cell), (b) node multiset = the requested lattice and cell count = the requested product (cartesian, chunk; annulus with the derived tangential count; sphere: cell and node counts of a closed 12 nx^2-face shell mesh, equally spaced radii, every cell between two consecutive shells, solid angle 4 pi per layer), (c) Depth = distance below the top, (d) every node value = the library's answer at the lattice node (print precision, boundary-robust), (e) filtered / by-tag files = the cells of the main file selected by the tag rule. Non-trivial: some node inside a feature and >=2 distinct tags in the mesh", 40, gen_grid, check_grid},
+    {"grid", "worlds with a cross section x grid files: cartesian / chunk (2D and 3D), annulus (2D), sphere (3D); bounds, 1..12 x 1..8 x 1..10 cells, 0..4 compositions, -j 1/2/3/7, --filtered / --by-tag. Oracle: (a) well-formed VTU (counts, array sizes, index ranges, offsets, cell types, no degenerate cell), (b) node multiset = the requested lattice, cell count = the requested product, every cell joins the corners of exactly one lattice cell and each lattice cell occurs once (cartesian, chunk; annulus with the derived tangential count; sphere: cell and node counts of a closed 12 nx^2-face shell mesh, equally spaced radii, every cell between two consecutive shells, solid angle 4 pi per layer), (c) Depth = distance below the top, (d) every node value = the library's answer at the lattice node (print precision, boundary-robust), (e) filtered / by-tag files = the cells of the main file selected by the tag rule. Non-trivial: some node inside a feature and >=2 distinct tags in the mesh", 40, gen_grid, check_grid},
   });
 }
